@@ -1,3 +1,4 @@
+CONSTANT QUICK = TRUE
 INIT Init
 NEXT Next
 INVARIANT Inv
